@@ -23,7 +23,7 @@ R1 (K4) _apply_removals/_apply_insertions make no direct name-changing file-syst
 R2 (K1) _FileMover: rename() journals (from, to) only after os.rename returned normally; pre_delete() renames before
    recording the pending deletion; rollback() walks reversed(past_renames) renaming to -> from; apply_deletions() deletes
    only the recorded pending deletions.
-R3 (K3) apply(): both phases run inside a try whose handler catches at least Exception, calls mover.rollback() and
+R3 (K3) apply(): both phases run inside a try whose handler catches BaseException (or is bare: interrupts roll back too), calls mover.rollback() and
    re-raises on every path; apply_deletions() is unreachable from that handler.
 R4 (K1 commit point) once the rename phases completed, every continuation on which a working-tree file-system operation
    (the tabled fallible set: mover.*, delete_any, os/shutil/osutils name- or content-changing calls) can fail still
@@ -169,6 +169,8 @@ def run(ctx):
             ok = bool(hs) and not escapes
             ctx.check("R3-phases-guarded", where, ok, f"{nm}: every failure is caught by a handler catching at least Exception", message=f"a failure in {nm} can propagate without passing the rollback handler (handler too narrow or phase outside the try)")
             if hs:
+                broad = all(g.nodes[h].ast.type is None or "BaseException" in norm(g.nodes[h].ast.type) for h in hs)
+                ctx.check("R3-phases-guarded", where, broad, f"{nm}: the rollback handler also catches KeyboardInterrupt / SystemExit (bare except or BaseException)", construct="; ".join(norm(g.nodes[h].ast.type) if g.nodes[h].ast.type is not None else "bare" for h in hs), message=f"the rollback handler around {nm} catches {[norm(g.nodes[h].ast.type) for h in hs if g.nodes[h].ast.type is not None]} only: a Ctrl-C (KeyboardInterrupt) or SystemExit between the first and the last rename leaves the tree half-moved, and the caller's finalize() then deletes the user's files parked in limbo")
                 ok2, w = g.always_after(hs, rb)
                 ok3 = g.exit not in g.reach(hs)
                 ctx.check("R3-rollback-on-failure", where, bool(rb) and ok2 and ok3, f"{nm}: the handler calls mover.rollback() and re-raises on every path", message=f"a failure in {nm} is not rolled back or is swallowed", witness=g.show_path(w) if w else None)
@@ -188,6 +190,7 @@ def run(ctx):
 
 _OLD_B = "            except BaseException:\n                mover.rollback()\n                raise\n"
 MUTANTS = [
+    Mutant("rollback handler narrowed to Exception (bzr)", BT, _OLD_B, "            except Exception:\n                mover.rollback()\n                raise\n", expect="R3-phases-guarded"),
     Mutant("ENOTDIR tolerated when moving entries into place", BT, "                        # We may be renaming a dangling inventory id\n                        if e.errno != errno.ENOENT:\n", "                        # We may be renaming a dangling inventory id\n                        if e.errno not in (errno.ENOENT, errno.ENOTDIR):\n", expect="R1c-rename-failure-aborts"),
     Mutant("direct os.rename in _apply_insertions (bzr)", BT, "                        mover.rename(self._limbo_name(trans_id), full_path)\n", "                        os.rename(self._limbo_name(trans_id), full_path)\n", expect="R1-journalled-only"),
     Mutant("direct delete in _apply_removals (git)", GT, "                    mover.pre_delete(full_path, delete_path)\n", "                    osutils.delete_any(full_path)\n", expect="R1-journalled-only"),
